@@ -41,7 +41,7 @@ type checkRunner struct {
 	mailFromReceived bool
 
 	checkedRcpts         []string
-	checkedRcptsPerCheck map[module.CheckState]map[string]struct{}
+	checkedRcptsPerCheck map[module.CheckState]map[string]module.CheckResult
 	checkedRcptsLock     sync.Mutex
 	checkedBody          map[module.CheckState]struct{}
 
@@ -60,7 +60,7 @@ type checkRunner struct {
 func newCheckRunner(msgMeta *module.MsgMetadata, log log.Logger, r dns.Resolver) *checkRunner {
 	return &checkRunner{
 		msgMeta:              msgMeta,
-		checkedRcptsPerCheck: map[module.CheckState]map[string]struct{}{},
+		checkedRcptsPerCheck: map[module.CheckState]map[string]module.CheckResult{},
 		checkedBody:          map[module.CheckState]struct{}{},
 		log:                  log,
 		resolver:             r,
@@ -136,12 +136,13 @@ func (cr *checkRunner) checkStates(ctx context.Context, checks []module.Check) (
 					return module.CheckResult{}
 				}
 				if cr.checkedRcptsPerCheck[s] == nil {
-					cr.checkedRcptsPerCheck[s] = make(map[string]struct{})
+					cr.checkedRcptsPerCheck[s] = make(map[string]module.CheckResult)
 				}
-				cr.checkedRcptsPerCheck[s][rcpt] = struct{}{}
+				cr.checkedRcptsPerCheck[s][rcpt] = module.CheckResult{}
 				cr.checkedRcptsLock.Unlock()
 
 				res := s.CheckRcpt(ctx, rcpt)
+				cr.rememberRcptResult(s, rcpt, res)
 				return res
 			})
 			if err != nil {
@@ -255,22 +256,37 @@ func (cr *checkRunner) checkRcpt(ctx context.Context, checks []module.Check, rcp
 
 	err = cr.runAndMergeResults(states, func(s module.CheckState) module.CheckResult {
 		cr.checkedRcptsLock.Lock()
-		if _, ok := cr.checkedRcptsPerCheck[s][rcptTo]; ok {
+		if res, ok := cr.checkedRcptsPerCheck[s][rcptTo]; ok {
 			cr.checkedRcptsLock.Unlock()
-			return module.CheckResult{}
+			// The check is not called again for a repeated recipient but its
+			// verdict still applies to the repeated command.
+			return res
 		}
 		if cr.checkedRcptsPerCheck[s] == nil {
-			cr.checkedRcptsPerCheck[s] = make(map[string]struct{})
+			cr.checkedRcptsPerCheck[s] = make(map[string]module.CheckResult)
 		}
-		cr.checkedRcptsPerCheck[s][rcptTo] = struct{}{}
+		cr.checkedRcptsPerCheck[s][rcptTo] = module.CheckResult{}
 		cr.checkedRcptsLock.Unlock()
 
 		res := s.CheckRcpt(ctx, rcptTo)
+		cr.rememberRcptResult(s, rcptTo, res)
 		return res
 	})
 
 	cr.checkedRcpts = append(cr.checkedRcpts, rcptTo)
 	return err
+}
+
+// rememberRcptResult keeps the verdict (not the header additions) a check gave
+// for a recipient so it can be applied again if the recipient is repeated.
+func (cr *checkRunner) rememberRcptResult(s module.CheckState, rcpt string, res module.CheckResult) {
+	cr.checkedRcptsLock.Lock()
+	cr.checkedRcptsPerCheck[s][rcpt] = module.CheckResult{
+		Reason:     res.Reason,
+		Reject:     res.Reject,
+		Quarantine: res.Quarantine,
+	}
+	cr.checkedRcptsLock.Unlock()
 }
 
 func (cr *checkRunner) checkBody(ctx context.Context, checks []module.Check, header textproto.Header, body buffer.Buffer) error {
